@@ -51,6 +51,10 @@ fixed before the first iteration, as in Python). -/
 def forRange {σ : Type} (n : Int) (body : Int → σ → Option σ) (s : σ) : Option σ :=
   (List.range n.toNat).foldlM (fun s (q : Nat) => body (q : Int) s) s
 
+/-- `for v in range(start, stop, -1): body` (`start, start-1, …, stop+1`). -/
+def forDown {σ : Type} (start stop : Int) (body : Int → σ → Option σ) (s : σ) : Option σ :=
+  (List.range (start - stop).toNat).foldlM (fun s (t : Nat) => body (start - (t : Int)) s) s
+
 /-- an `int | bool` value used where an int is expected (`False == 0`, `True == 1`). -/
 @[inline] def asInt : Sum Int Bool → Int
   | .inl p => p
